@@ -137,4 +137,186 @@ theorem parseRec_encode (r : FRec) (more : Bytes) (tloc : Nat) (h : RecWF tloc r
     simp [FRec.len, Body.plen, take_append_eq (be_length 8 p), be_length,
       beVal_be 8 p (by simpa using hb)]
 
+
+/-! ### record walk round trip -/
+
+theorem withPos_map_snd (p : Nat) (rs : List FRec) : (withPos p rs).map (·.2) = rs := by
+  induction rs generalizing p with
+  | nil => rfl
+  | cons r rs ih => simp [withPos, ih]
+
+theorem walkRecs_encode (recs : List FRec) (more : Bytes) (tpos : Nat) (htp : tpos < 2 ^ 64)
+    (h : ∀ r ∈ recs, RecWF tpos r) :
+    ∀ (fuel pos : Nat), recs.length < fuel →
+      walkRecs fuel (encodeRecs recs ++ more) pos tpos (pos + recsLen recs)
+        = .ok (withPos pos recs) := by
+  induction recs with
+  | nil =>
+    intro fuel pos hf
+    cases fuel with
+    | zero => omega
+    | succ f => simp [walkRecs, recsLen, withPos]
+  | cons r rs ih =>
+    intro fuel pos hf
+    cases fuel with
+    | zero => simp at hf
+    | succ f =>
+      have hr := h r List.mem_cons_self
+      have hlen := rec_len_pos r
+      have hrs : ∀ x ∈ rs, RecWF tpos x := fun x hx => h x (List.mem_cons_of_mem _ hx)
+      have htl : r.tloc < 2 ^ 64 := by rw [hr.2.2.2.1]; exact htp
+      have hsum : pos + recsLen (r :: rs) = pos + r.len + recsLen rs := by
+        simp only [recsLen, List.map_cons, List.sum_cons]; omega
+      have henc : encodeRecs (r :: rs) ++ more = encodeRec r ++ (encodeRecs rs ++ more) := by
+        simp [encodeRecs]
+      rw [hsum, henc]
+      simp only [walkRecs]
+      rw [if_pos (by omega), parseRec_encode r _ tpos hr htl]
+      simp only []
+      rw [if_neg (by simp only [hr.2.2.2.1]; omega),
+        drop_append_eq (encodeRec_length r hr.2.2.2.2),
+        ih hrs f (pos + r.len) (by simp at hf; omega)]
+      simp [withPos]
+
+/-! ### transaction round trip, torn transactions -/
+
+theorem slice_mid {α} (a b c : List α) {n m : Nat} (ha : a.length = n) (hb : b.length = m) :
+    ((a ++ (b ++ c)).drop n).take m = b := by
+  rw [drop_append_eq ha, take_append_eq hb]
+
+/-- the encoded transaction cut into header / metadata / records / trailer -/
+theorem encodeTxnSt_parts (st : Nat) (t : FTxn) (more : Bytes) :
+    encodeTxnSt st t ++ more =
+      encodeHdr t.tid t.tlen st t.user.length t.desc.length t.ext.length ++
+        (t.user ++ (t.desc ++ (t.ext ++ (encodeRecs t.recs ++ (be 8 t.tlen ++ more))))) := by
+  simp [encodeTxnSt]
+
+theorem parseTxn_encode (t : FTxn) (pos : Nat) (more : Bytes) (h : TxnWF pos t) :
+    parseTxn (encodeTxn t ++ more) pos = .ok t (txnPrecs pos t) (t.tlen + 8) := by
+  obtain ⟨h1, h2, h3, h4, h5, h6, h7, h8, h9⟩ := h
+  have hb := recWF_body h9
+  have hrl := encodeRecs_length _ hb
+  have hlen : (encodeTxn t ++ more).length = t.tlen + 8 + more.length := by
+    rw [List.length_append, encodeTxn, encodeTxnSt_length _ _ hb]
+  have hparts := encodeTxnSt_parts t.status t more
+  have hH := encodeHdr_length t.tid t.tlen t.status t.user.length t.desc.length t.ext.length
+  have htl : t.tlen = 23 + t.user.length + t.desc.length + t.ext.length + recsLen t.recs := by
+    simp [FTxn.tlen, FTxn.hdrLen]
+  -- the 23 header bytes
+  have hhead : (encodeTxn t ++ more).take 23 =
+      encodeHdr t.tid t.tlen t.status t.user.length t.desc.length t.ext.length ++ [] := by
+    rw [encodeTxn, hparts, take_append_eq hH, List.append_nil]
+  have hhd : parseHdr ((encodeTxn t ++ more).take 23) =
+      ⟨t.tid, t.tlen, t.status, t.user.length, t.desc.length, t.ext.length⟩ := by
+    rw [hhead]; exact parseHdr_encode _ _ _ _ _ _ _ (by omega) (by omega) h2 h5 h6 h7
+  -- metadata
+  have huser : ((encodeTxn t ++ more).drop 23).take t.user.length = t.user := by
+    rw [encodeTxn, hparts]; exact slice_mid _ _ _ hH rfl
+  have hdesc : ((encodeTxn t ++ more).drop (23 + t.user.length)).take t.desc.length = t.desc := by
+    rw [encodeTxn, hparts, ← List.append_assoc]
+    exact slice_mid _ _ _ (by simp [hH]) rfl
+  have hext : ((encodeTxn t ++ more).drop (23 + t.user.length + t.desc.length)).take t.ext.length
+      = t.ext := by
+    rw [encodeTxn, hparts, ← List.append_assoc, ← List.append_assoc]
+    exact slice_mid _ _ _ (by simp [hH]; omega) rfl
+  -- records and trailer
+  have hrecs : (encodeTxn t ++ more).drop (23 + t.user.length + t.desc.length + t.ext.length)
+      = encodeRecs t.recs ++ (be 8 t.tlen ++ more) := by
+    rw [encodeTxn, hparts, ← List.append_assoc, ← List.append_assoc, ← List.append_assoc]
+    exact drop_append_eq (by simp [hH]; omega)
+  have htrail : ((encodeTxn t ++ more).drop t.tlen).take 8 = be 8 t.tlen := by
+    rw [encodeTxn, hparts, ← List.append_assoc, ← List.append_assoc, ← List.append_assoc,
+      ← List.append_assoc]
+    exact slice_mid _ _ _ (by simp [hH, hrl]; omega) (be_length 8 _)
+  have hwalk := walkRecs_encode t.recs (be 8 t.tlen ++ more) pos (by omega) h9 (t.tlen + 1)
+    (pos + (23 + t.user.length + t.desc.length + t.ext.length))
+    (by have := recs_length_le t.recs; omega)
+  have hend : pos + (23 + t.user.length + t.desc.length + t.ext.length) + recsLen t.recs
+      = pos + t.tlen := by omega
+  rw [hend] at hwalk
+  unfold parseTxn
+  simp only [hhd, hlen, hrecs, htrail, huser, hdesc, hext, hwalk, List.length_take]
+  rw [if_neg (by omega), if_neg (by omega), if_neg (by simp [h3]), if_neg (by omega),
+    if_neg (by simp only [stopDefault]; omega), if_neg h4,
+    if_neg (by simp [beVal_be 8 t.tlen (by simpa using (by omega : t.tlen < 2 ^ 64))])]
+  simp [withPos_map_snd, txnPrecs, FTxn.hdrLen, Nat.add_assoc]
+
+/-- every strict byte-prefix of a transaction being written is rejected at its start: nothing left
+    ⇒ clean end; fewer than 23 bytes ⇒ plain truncate; otherwise the length test fires -/
+theorem parseTxn_torn (st : Nat) (t : FTxn) (pos n : Nat) (hb : ∀ r ∈ t.recs, BodyWF r.body)
+    (htl : t.tlen < 2 ^ 64) (hn : n < t.tlen + 8) :
+    parseTxn ((encodeTxnSt st t).take n) pos
+      = if n = 0 then .eof else .truncate (decide (23 ≤ n)) := by
+  have hlen := encodeTxnSt_length st t hb
+  have hparts := encodeTxnSt_parts st t []
+  rw [List.append_nil] at hparts
+  have hH := encodeHdr_length t.tid t.tlen st t.user.length t.desc.length t.ext.length
+  unfold parseTxn
+  by_cases h0 : n = 0
+  · subst h0; simp
+  · by_cases h23 : 23 ≤ n
+    · have hhead : ((encodeTxnSt st t).take n).take 23
+          = encodeHdr t.tid t.tlen st t.user.length t.desc.length t.ext.length ++ [] := by
+        rw [take_take_le _ h23, hparts, take_append_eq hH, List.append_nil]
+      have hl : ((encodeTxnSt st t).take n).length = n := by
+        rw [List.length_take, hlen]; omega
+      simp only [hhead, parseHdr_tl _ _ _ _ _ _ _ htl, hl]
+      rw [if_neg (by simp), if_neg (by simp), if_pos (by left; omega)]
+      simp [h0, h23]
+    · have hl : (((encodeTxnSt st t).take n).take 23).length = n := by
+        simp only [List.length_take, hlen]; omega
+      have hne : n ≠ 23 := by omega
+      simp [hl, h0, hne, h23]
+
+/-- a complete transaction whose status byte is still 'c' is rejected at its start -/
+theorem parseTxn_checkpoint (t : FTxn) (pos : Nat) (more : Bytes) (hb : ∀ r ∈ t.recs, BodyWF r.body) :
+    parseTxn (encodeTxnSt stCheckpoint t ++ more) pos = .truncate true := by
+  have hlen : (encodeTxnSt stCheckpoint t ++ more).length = t.tlen + 8 + more.length := by
+    rw [List.length_append, encodeTxnSt_length _ _ hb]
+  have hparts := encodeTxnSt_parts stCheckpoint t more
+  have hH := encodeHdr_length t.tid t.tlen stCheckpoint t.user.length t.desc.length t.ext.length
+  have hhead : (encodeTxnSt stCheckpoint t ++ more).take 23 =
+      encodeHdr t.tid t.tlen stCheckpoint t.user.length t.desc.length t.ext.length ++ [] := by
+    rw [hparts, take_append_eq hH, List.append_nil]
+  unfold parseTxn
+  simp only [hhead, parseHdr_st _ _ _ _ _ _ _ (by decide : stCheckpoint < 256)]
+  simp
+
+/-! ### the scan loop over well-formed transactions -/
+
+theorem encodeTxns_length_cons (pos : Nat) (t : FTxn) (ts : List FTxn) (h : TxnWF pos t) :
+    (encodeTxns (t :: ts)).length = t.tlen + 8 + (encodeTxns ts).length := by
+  simp [encodeTxns, encodeTxn_length h]
+
+/-- scanning a run of well-formed transactions accepts all of them and continues behind them -/
+theorem scan_encode (ts : List FTxn) :
+    ∀ (pos : Nat) (st : ScanState) (f : Nat) (more : Bytes), TxnsWF pos ts →
+      scan (ts.length + f) (encodeTxns ts ++ more) pos st
+        = scan f more (pos + (encodeTxns ts).length)
+            ⟨indexFrom st.index pos ts, lastTid st.ltid ts, st.txns ++ ts⟩ := by
+  induction ts with
+  | nil => intro pos st f more _; simp [encodeTxns, indexFrom, lastTid]
+  | cons t ts ih =>
+    intro pos st f more h
+    obtain ⟨ht, hts⟩ := h
+    have hf : (t :: ts).length + f = (ts.length + f) + 1 := by simp; omega
+    have henc : encodeTxns (t :: ts) ++ more = encodeTxn t ++ (encodeTxns ts ++ more) := by
+      simp [encodeTxns]
+    rw [hf, henc]
+    simp only [scan, parseTxn_encode t pos _ ht]
+    rw [drop_append_eq (encodeTxn_length ht), ih _ _ _ _ hts,
+      encodeTxns_length_cons pos t ts ht]
+    simp [ScanState.accept, indexFrom, lastTid, Nat.add_assoc]
+
+theorem encodeTxns_length_ge (ts : List FTxn) : ∀ pos, TxnsWF pos ts →
+    ts.length ≤ (encodeTxns ts).length := by
+  induction ts with
+  | nil => intro _ _; simp
+  | cons t ts ih =>
+    intro pos h
+    have := ih _ h.2
+    rw [encodeTxns_length_cons pos t ts h.1]
+    simp only [List.length_cons]
+    omega
+
 end Proofs.Format
